@@ -115,6 +115,12 @@ func main() {
 			}
 			text := func(n ast.Node) string { return string(src[off(n.Pos()):off(n.End())]) }
 			if neutral {
+				declOK := map[*ast.AssignStmt]bool{}
+				for _, st := range fd.Body.List {
+					if as, ok := st.(*ast.AssignStmt); ok {
+						declOK[as] = true
+					}
+				}
 				ast.Inspect(fd.Body, func(n ast.Node) bool {
 					switch x := n.(type) {
 					case *ast.BinaryExpr:
@@ -147,6 +153,67 @@ func main() {
 							emit("incr", x.Pos(), x.End(), text(x.X)+" += 1")
 						} else {
 							emit("incr", x.Pos(), x.End(), text(x.X)+" -= 1")
+						}
+					case *ast.ReturnStmt:
+						// return f(x) -> r := f(x); return r   (functions with exactly one result)
+						if len(x.Results) == 1 && fd.Type.Results != nil && len(fd.Type.Results.List) == 1 && len(fd.Type.Results.List[0].Names) <= 1 {
+							if _, isCall := x.Results[0].(*ast.CallExpr); isCall {
+								emit("ret-temp", x.Pos(), x.End(), "{ zzRet := "+text(x.Results[0])+"; return zzRet }")
+							}
+						}
+					case *ast.ExprStmt:
+						// recv.M(expr) -> { zzArg := expr; recv.M(zzArg) }   (one argument that is itself a call or a selector)
+						if call, ok := x.X.(*ast.CallExpr); ok && len(call.Args) == 1 && call.Ellipsis == token.NoPos {
+							simpleFun := false
+							switch f := call.Fun.(type) {
+							case *ast.Ident:
+								simpleFun = true
+							case *ast.SelectorExpr:
+								_, simpleFun = f.X.(*ast.Ident)
+							}
+							switch call.Args[0].(type) {
+							case *ast.CallExpr, *ast.SelectorExpr, *ast.IndexExpr:
+								if simpleFun {
+									emit("arg-temp", x.Pos(), x.End(), "{ zzArg := "+text(call.Args[0])+"; "+text(call.Fun)+"(zzArg) }")
+								}
+							}
+						}
+					case *ast.AssignStmt:
+						// x := v -> var x = v
+						if x.Tok == token.DEFINE && len(x.Lhs) == 1 && len(x.Rhs) == 1 {
+							if id, ok := x.Lhs[0].(*ast.Ident); ok && id.Name != "_" && declOK[x] {
+								emit("decl-form", x.Pos(), x.End(), "var "+id.Name+" = "+text(x.Rhs[0]))
+							}
+						}
+					case *ast.ForStmt:
+						// for ... { if c { body } } -> for ... { if !(c) { continue }; body }
+						if len(x.Body.List) == 1 {
+							if ifs, ok := x.Body.List[0].(*ast.IfStmt); ok && ifs.Init == nil && ifs.Else == nil && len(ifs.Body.List) > 0 {
+								inner := text(ifs.Body)
+								emit("early-continue", ifs.Pos(), ifs.End(), "if !("+text(ifs.Cond)+") { continue }\n"+inner[1:len(inner)-1])
+							}
+						}
+					case *ast.RangeStmt:
+						if len(x.Body.List) == 1 {
+							if ifs, ok := x.Body.List[0].(*ast.IfStmt); ok && ifs.Init == nil && ifs.Else == nil && len(ifs.Body.List) > 0 {
+								inner := text(ifs.Body)
+								emit("early-continue", ifs.Pos(), ifs.End(), "if !("+text(ifs.Cond)+") { continue }\n"+inner[1:len(inner)-1])
+							}
+						}
+					case *ast.BlockStmt:
+						// if c { ...; return } else { B }  ->  if c { ...; return }; B      and the reverse for a trailing tail
+						for _, st := range x.List {
+							if ifs, ok := st.(*ast.IfStmt); ok && ifs.Init == nil {
+								if els, isBlk := ifs.Else.(*ast.BlockStmt); isBlk && leaves(ifs.Body) && len(els.List) > 0 {
+									inner := text(els)
+									emit("else-elim", ifs.Pos(), ifs.End(), "if "+text(ifs.Cond)+" "+text(ifs.Body)+"\n"+inner[1:len(inner)-1])
+								}
+							}
+						}
+						for _, st := range x.List {
+							if as, ok := st.(*ast.AssignStmt); ok {
+								declOK[as] = true // a plain statement of a block (not the init of an if/for/switch)
+							}
 						}
 					case *ast.IfStmt:
 						if x.Init != nil {
